@@ -50,6 +50,10 @@ type Case struct {
 	Fault *Fault `json:"fault,omitempty"` // C09 thorough: strace injection
 	// Scenario names a hand-made world instead of a seeded one (corpus).
 	Scenario string `json:"scenario,omitempty"`
+	// Big > 0: the root holds a directory with that many files, the plan
+	// removes it, and the context is cancelled as soon as the first file is
+	// gone (C09: cancellation part-way through removeDirectory's loop).
+	Big int `json:"big,omitempty"`
 }
 
 const rootName = "root"
@@ -221,9 +225,21 @@ func prepare(c Case) (*world, error) {
 	w.dfm = []filesystem.Mode{0o600, 0o644, 0o640}[r.Intn(3)]
 	w.ddm = []filesystem.Mode{0o700, 0o755}[r.Intn(2)]
 	w.own = r.Intn(4) == 0
+	// a forced edit needs a node of the right type to be hit by the plan
+	want := wantedType(c.Edit)
+	if c.Edit == "retarget" && r.Intn(4) != 0 {
+		// verbatim link targets are compared only in POSIX raw mode
+		w.slm = core.SymbolicLinkMode_SymbolicLinkModePOSIXRaw
+	}
+	if c.Prop == "C03" && w.slm == core.SymbolicLinkMode_SymbolicLinkModeIgnore {
+		w.slm = core.SymbolicLinkMode_SymbolicLinkModePortable
+	}
 
 	// the tree
 	rootKind := r.Intn(16)
+	if want != "" || c.Prop == "C03" || c.Big > 0 {
+		rootKind = 2
+	}
 	var spec *TNode
 	switch {
 	case rootKind == 0:
@@ -232,8 +248,17 @@ func prepare(c Case) (*world, error) {
 		spec = &TNode{Kind: "file", Data: contentPool[r.Intn(len(contentPool))], Mode: 0o644}
 	default:
 		spec = randomTree(r, 3, true)
-		for spec.Kind != "dir" {
+		for tries := 0; spec.Kind != "dir" || (want != "" && !hasKind(spec, want, true) && tries < 50); tries++ {
 			spec = randomTree(r, 3, true)
+		}
+		if c.Big > 0 {
+			// a directory with many files, for a cancellation that lands
+			// part-way through its removal
+			big := &TNode{Kind: "dir", Mode: 0o755, Kids: map[string]*TNode{}}
+			for i := 0; i < c.Big; i++ {
+				big.Kids[fmt.Sprintf("f%03d", i)] = &TNode{Kind: "file", Data: "c1", Mode: 0o644}
+			}
+			spec = &TNode{Kind: "dir", Mode: 0o755, Kids: map[string]*TNode{"big": big, "e": {Kind: "file", Data: "c22", Mode: 0o644}}}
 		}
 	}
 	if spec != nil {
@@ -277,6 +302,35 @@ func prepare(c Case) (*world, error) {
 		w.tags = append(w.tags, "op:"+tag)
 	}
 	nops := 1 + r.Intn(4)
+	if c.Big > 0 {
+		add("big", lookupEntry(snap, "big").Copy(core.EntryCopyBehaviorDeep), nil, "delete-big")
+		w.cancel = "async"
+		nops = 0
+	}
+	if want != "" && snap != nil {
+		// first operation: remove (or swap) a node of the wanted type, directly
+		// or through its parent directory
+		var typed []string
+		entryPaths("", snap, func(p string, e *core.Entry) {
+			if p != "" && entryKindName(e) == want {
+				typed = append(typed, p)
+			}
+		})
+		if len(typed) > 0 {
+			p := typed[r.Intn(len(typed))]
+			old := lookupEntry(snap, p).Copy(core.EntryCopyBehaviorDeep)
+			switch k := r.Intn(3); {
+			case k == 0 && strings.Contains(p, "/"):
+				pp := p[:strings.LastIndex(p, "/")]
+				add(pp, lookupEntry(snap, pp).Copy(core.EntryCopyBehaviorDeep), nil, "delete-parent-of-edited")
+			case k == 1 && want == "file":
+				contents[hex.EncodeToString(digestOf("n22"))] = "n22"
+				add(p, old, fileEntry("n22", false), "swap-edited")
+			default:
+				add(p, old, nil, "delete-edited")
+			}
+		}
+	}
 	if snap == nil {
 		// absent root: create it (or, rarely, something below the absent root)
 		if r.Intn(5) == 0 {
@@ -369,7 +423,11 @@ func prepare(c Case) (*world, error) {
 				return
 			}
 			s := &stagedSpec{Path: p, Digest: e.Digest, Content: contents[hex.EncodeToString(e.Digest)]}
-			switch k := r.Intn(100); {
+			k := r.Intn(100)
+			if c.Prop == "C03" && k < 70 {
+				k = 70 // cross-device staging: the copy-through-temporary fallback
+			}
+			switch {
 			case k < 64:
 				s.Status = "ok"
 			case k < 80:
@@ -419,7 +477,7 @@ func prepare(c Case) (*world, error) {
 	}
 
 	// cancellation (C09 only)
-	if c.Prop == "C09" && c.Fault == nil {
+	if c.Prop == "C09" && c.Fault == nil && w.cancel == "" {
 		switch k := r.Intn(20); {
 		case k == 0:
 			w.cancel = "start"
@@ -436,6 +494,8 @@ func prepare(c Case) (*world, error) {
 		if err = w.edit(r, c.Edit); err != nil {
 			return w, err
 		}
+	} else if c.Prop == "C03" {
+		w.intrude(r)
 	} else if r.Intn(6) == 0 {
 		// a FIFO squatting on the name a creation wants (not synchronizable
 		// content, so the plan's "nothing here" still describes the disk)
@@ -506,7 +566,103 @@ func prepareScenario(c Case) (*world, error) {
 	return w, nil
 }
 
-var editKinds = []string{"resize", "mtime", "chmod", "inode", "retarget", "child", "type", "remove"}
+var editKinds = []string{"resize", "mtime", "subsec", "chmod", "inode", "retarget", "child", "type", "remove"}
+
+// wantedType is the type of node a forced edit kind applies to.
+func wantedType(edit string) string {
+	switch edit {
+	case "resize", "mtime", "subsec", "chmod", "inode":
+		return "file"
+	case "retarget":
+		return "link"
+	case "child":
+		return "dir"
+	}
+	return ""
+}
+
+func entryKindName(e *core.Entry) string {
+	switch e.Kind {
+	case core.EntryKind_Directory:
+		return "dir"
+	case core.EntryKind_File:
+		return "file"
+	case core.EntryKind_SymbolicLink:
+		return "link"
+	}
+	return ""
+}
+
+// hasKind reports whether the tree has a node of the kind (below the top).
+func hasKind(t *TNode, kind string, top bool) bool {
+	if !top && t.Kind == kind {
+		// portable mode drops non-portable links from the snapshot
+		if kind != "link" || (t.Target != "/abs" && t.Target != "../out") {
+			return true
+		}
+	}
+	for _, k := range t.Kids {
+		if hasKind(k, kind, false) {
+			return true
+		}
+	}
+	return false
+}
+
+// intrude (C03) makes content appear after the scan that synchronization does
+// not know about: at the paths of planned creations and inside directories the
+// plan removes. Regular files, FIFOs and directories.
+func (w *world) intrude(r *rand.Rand) {
+	put := func(full string) bool {
+		if _, err := os.Lstat(full); err == nil {
+			return false
+		}
+		if _, err := os.Lstat(filepath.Dir(full)); err != nil {
+			return false
+		}
+		switch r.Intn(3) {
+		case 0:
+			return os.WriteFile(full, []byte("unknown"), 0o644) == nil
+		case 1:
+			return syscall.Mkfifo(full, 0o644) == nil
+		default:
+			if os.Mkdir(full, 0o755) != nil {
+				return false
+			}
+			os.WriteFile(filepath.Join(full, "inner"), []byte("deep"), 0o644)
+			return true
+		}
+	}
+	for _, ch := range w.plan {
+		if ch.Old == nil && ch.Path != "" && r.Intn(4) != 0 {
+			if put(filepath.Join(w.root, filepath.FromSlash(ch.Path))) {
+				w.tags = append(w.tags, "intruder:creation-target")
+			}
+		}
+		if ch.Old != nil {
+			var dirs []string
+			entryPaths(ch.Path, ch.Old, func(p string, e *core.Entry) {
+				if e.Kind == core.EntryKind_Directory {
+					dirs = append(dirs, p)
+				}
+			})
+			if len(dirs) > 0 && r.Intn(3) != 0 {
+				d := dirs[r.Intn(len(dirs))]
+				n := []string{"u1", "u2", "zz"}[r.Intn(3)]
+				if lookupEntry(ch.Old, strings.TrimPrefix(strings.TrimPrefix(join(d, n), ch.Path), "/")) == nil {
+					if put(filepath.Join(w.root, filepath.FromSlash(join(d, n)))) {
+						w.tags = append(w.tags, "intruder:unknown-child")
+					}
+				}
+			}
+			if ch.New != nil {
+				// a creation inside a replaced directory's place is covered by
+				// the first loop only when Old is nil
+				_ = ch
+			}
+		}
+	}
+}
 
 // edit modifies the tree after the scan.
 func (w *world) edit(r *rand.Rand, forced string) error {
@@ -525,6 +681,17 @@ func (w *world) edit(r *rand.Rand, forced string) error {
 	nedits := 1 + r.Intn(3)
 	if forced != "" {
 		nedits = 1
+	}
+	if wt := wantedType(forced); wt != "" {
+		var typed []cand
+		for _, cd := range cands {
+			if entryKindName(cd.e) == wt && cd.p != "" {
+				typed = append(typed, cd)
+			}
+		}
+		if len(typed) > 0 {
+			cands = typed
+		}
 	}
 	for i := 0; i < nedits*4 && len(w.edits) < nedits; i++ {
 		cd := cands[r.Intn(len(cands))]
@@ -566,6 +733,28 @@ func (w *world) edit(r *rand.Rand, forced string) error {
 				f.Close()
 				later := oldM.Add(time.Second)
 				os.Chtimes(full, later, later)
+				done = true
+			}
+		case "subsec":
+			// in place, same size, same inode, and a modification time in the
+			// same second: only the nanoseconds differ
+			if typ == syscall.S_IFREG {
+				b, _ := os.ReadFile(full)
+				nb := []byte(strings.Repeat("%", len(b)))
+				f, err := os.OpenFile(full, os.O_WRONLY, 0)
+				if err != nil {
+					return err
+				}
+				f.Write(nb)
+				f.Close()
+				ns := st.Mtim.Nsec
+				if ns >= 500_000_000 {
+					ns -= 123_456_789
+				} else {
+					ns += 123_456_789
+				}
+				same := time.Unix(st.Mtim.Sec, ns)
+				os.Chtimes(full, same, same)
 				done = true
 			}
 		case "chmod":
@@ -770,6 +959,26 @@ func (w *world) runInProcess() *outcome {
 	ctx, cancel := context.WithCancel(context.Background())
 	defer cancel()
 	prov := &provider{table: w.providerTable()}
+	stop := make(chan struct{})
+	defer close(stop)
+	if w.cancel == "async" {
+		// cancel as soon as the first child of root/big has disappeared
+		big := filepath.Join(w.root, "big")
+		initial := countEntries(big)
+		go func() {
+			for {
+				select {
+				case <-stop:
+					return
+				default:
+				}
+				if n := countEntries(big); n >= 0 && n < initial {
+					cancel()
+					return
+				}
+			}
+		}()
+	}
 	if w.cancel == "start" {
 		cancel()
 	} else if strings.HasPrefix(w.cancel, "provide:") {
@@ -784,6 +993,20 @@ func (w *world) runInProcess() *outcome {
 	res, probs, missing := core.Transition(ctx, w.root, w.plan, w.cache, w.slm, w.dfm, w.ddm,
 		w.ownership(), false, prov)
 	return &outcome{res, probs, missing}
+}
+
+// countEntries is the number of names in a directory (-1 if unreadable).
+func countEntries(dir string) int {
+	f, err := os.Open(dir)
+	if err != nil {
+		return -1
+	}
+	defer f.Close()
+	names, err := f.Readdirnames(-1)
+	if err != nil {
+		return -1
+	}
+	return len(names)
 }
 
 func slmName(m core.SymbolicLinkMode) string {
@@ -914,6 +1137,8 @@ func (w *world) emit(pre, post *WNode, out *outcome) string {
 		sb.WriteString("CNever ")
 	case w.cancel == "start":
 		sb.WriteString("CStart ")
+	case w.cancel == "async":
+		sb.WriteString("CAsync ")
 	default:
 		var j int
 		fmt.Sscanf(w.cancel, "provide:%d", &j)
@@ -935,23 +1160,53 @@ func (w *world) emit(pre, post *WNode, out *outcome) string {
 	return sb.String()
 }
 
+// secondFilesystem reports whether /dev/shm is another device than the
+// temporary directory.
+func secondFilesystem() bool {
+	var a, b syscall.Stat_t
+	if syscall.Stat(os.TempDir(), &a) != nil || syscall.Stat("/dev/shm", &b) != nil {
+		return false
+	}
+	return a.Dev != b.Dev
+}
+
 const header = "From Coq Require Import List String NArith.\nImport ListNotations.\nOpen Scope string_scope.\nFrom Mv Require Import Common.Bytes Model.Entry Model.Fs Model.FsExt Model.Transition Model.TransitionCheck Harness.TransitionH."
 
 // runCase performs one case end to end and returns its Coq term.
 func runCase(c Case) (coq string, nontrivial bool, tags []string, err error) {
+	if c.Big > 0 {
+		// retry with larger directories until the cancellation lands while the
+		// directory is partly removed
+		for attempt := 0; ; attempt++ {
+			cc := c
+			cc.Big = c.Big << attempt
+			coq, nontrivial, tags, landed, err := runCaseOnce(cc)
+			if err != nil || landed || attempt == 3 {
+				if landed {
+					tags = append(tags, "cancel:landed-mid-removal")
+				}
+				return coq, nontrivial, tags, err
+			}
+		}
+	}
+	coq, nontrivial, tags, _, err = runCaseOnce(c)
+	return
+}
+
+func runCaseOnce(c Case) (coq string, nontrivial bool, tags []string, landed bool, err error) {
 	w, err := prepare(c)
 	if w != nil {
 		defer w.cleanup()
 	}
 	if err != nil {
-		return "", false, nil, err
+		return "", false, nil, false, err
 	}
 	pre := walk(w.parent)
 	var out *outcome
 	if c.Fault != nil {
 		out, err = w.runChild()
 		if err != nil {
-			return "", false, nil, err
+			return "", false, nil, false, err
 		}
 	} else {
 		out = w.runInProcess()
@@ -974,7 +1229,11 @@ func runCase(c Case) (coq string, nontrivial bool, tags []string, err error) {
 		tags = append(tags, "inject:"+c.Fault.Syscall)
 	}
 	nontrivial = len(out.problems) > 0 || pre.raw() != post.raw()
-	return w.emit(pre, post, out), nontrivial, tags, nil
+	if c.Big > 0 {
+		left := countEntries(filepath.Join(w.root, "big"))
+		landed = left > 0 && left < c.Big
+	}
+	return w.emit(pre, post, out), nontrivial, tags, landed, nil
 }
 
 func main() {
@@ -988,6 +1247,8 @@ func main() {
 	fn := "c09_failures"
 	if *prop == "C08" {
 		fn = "c08_failures"
+	} else if *prop == "C03" {
+		fn = "c03_failures"
 	}
 	if *fixed {
 		fn += "_fixed"
@@ -1051,9 +1312,32 @@ func main() {
 			}
 			add(c, "random")
 		}
+	} else if *prop == "C03" {
+		// needs a second filesystem for the staging directory
+		if !secondFilesystem() {
+			w.Extra["c03_disk"] = "no second filesystem (/dev/shm) available: cross-device cases skipped"
+		} else {
+			m := 120
+			if cfg.Thorough() {
+				m = 1200
+			}
+			for i := 0; i < m; i++ {
+				add(Case{Prop: "C03", Seed: r.Int63()}, "random")
+			}
+		}
 	} else {
+		if !cfg.Thorough() {
+			n = 200
+		}
 		for i := 0; i < n; i++ {
 			add(Case{Prop: "C09", Seed: r.Int63()}, "random")
+		}
+		nbig := 3
+		if cfg.Thorough() {
+			nbig = 20
+		}
+		for i := 0; i < nbig; i++ {
+			add(Case{Prop: "C09", Seed: r.Int63(), Big: 100}, "cancel-mid-removal")
 		}
 		if cfg.Thorough() {
 			sweep(cfg, w, add)
